@@ -33,6 +33,9 @@ def _random_number_to_data(probdist, random_number):
         cumulative_sum += prob
         if random_number %(op)s cumulative_sum:
             return index
+    for index in range(len(probdist) - 1, -1, -1):
+        if probdist[index] %(fop)s 0:
+            return index
     return len(probdist) - %(off)d
 """
 T_GEN_DATA = """
@@ -236,13 +239,14 @@ def extract():
     start = _one(r"\n    cumulative_sum = (\S+)\n", src, "start of the running sum")
     op = _one(r"if random_number (<=|<|>=|>) cumulative_sum:", src, "comparison of the inversion loop")
     off = int(_one(r"\n    return len\(probdist\) - (\d+)$", src.rstrip(), "fall-through result"))
+    fop = _one(r"\n        if probdist\[index\] (<=|<|>=|>|==|!=) 0:", src, "test of the backward loop")
     try:
         from fractions import Fraction
         startq = Fraction(ast.literal_eval(start))
     except Exception:
         raise Untranslatable(f"start value of the running sum is not a literal: {start}")
-    _match(src, T_R2D % dict(start=start, op=op, off=off), "_random_number_to_data")
-    tb.update(start=startq, op=op, off=off)
+    _match(src, T_R2D % dict(start=start, op=op, off=off, fop=fop), "_random_number_to_data")
+    tb.update(start=startq, op=op, off=off, fop=fop)
     # --- to_stream
     nu = _parse(NU)
     src = _norm_src(_top(nu, "to_stream"))
@@ -299,7 +303,9 @@ def render(tb):
         f"def hit (u c : Rat) : Bool := decide ({OPS[tb['op']]})",
         "/-- start value of the running sum -/",
         f"def cumStart : Rat := {qtxt}",
-        f"/-- the fall-through `return len(probdist) - {tb['off']}` -/",
+        f"/-- the backward loop after a fall-through: `for index in range(len - 1, -1, -1): if probdist[index] {tb['fop']} 0: return index` -/",
+        f"def fallKeep (p : Rat) : Bool := decide (p {LOP[tb['fop']]} 0)",
+        f"/-- the final `return len(probdist) - {tb['off']}` (no entry passes the backward test) -/",
         f"def fallThrough (len : Int) : Int := len - {tb['off']}",
         "/-- `to_stream`: what the branches for `None`, an `int`, anything else return.",
         "0 = numpy's global state (`np.random`), 1 = a fresh `Generator(MT19937(seed))`, 2 = the argument itself -/",
